@@ -6,6 +6,7 @@ import guards
 CLAIMS = ("R1 a HAVING predicate handed to an aggregate operator (post_filter) is applied on every successful path of that operator: in SpillableHashAggregateExec::execute and MorselAggregateExec::execute every Ok return either reads self.post_filter (directly or through a self method / helper that receives it) or returns a provably empty result; "
           "R2 the planner either hands the pending HAVING predicate to the aggregate it lowers or plans a FilterExec for it, never neither: lower_aggregate_cpu takes the pending slot before planning its input, every operator it returns receives with_post_filter(..) or is wrapped by create_filter(..) when the slot was Some, and the Filter-over-Aggregate arm returns the bare aggregate only when the slot was consumed; "
           "R3 capability refusals inside layout-only fast paths are reported: an 'unsupported'-class error constructed inside the morsel/streaming fast paths means the same query succeeds on an in-memory layout and fails on Parquet.")
+CLAIMS = CLAIMS + ("; R4 (= C05.R8) the 'every row matches' proof that lets the Parquet aggregation path drop its decoder row filter evaluates literal-first comparisons with the flipped operator.",)[0]
 NOT_DECIDED = "that the eager/streaming/prescan/morsel paths compute the same rows (value equality); the delim-state lowering path (FlattenDependentJoin is disabled, so it is unreachable from SQL today)."
 
 SP = "physical::operators::spillable::SpillableHashAggregateExec"
@@ -113,3 +114,6 @@ def run(F, R):
     for (root, msg), (file, line) in sorted(seen.items()):
         R.bad("C04.R3", f"{root}:{msg}", f"a capability refusal (`{msg}`) is raised inside a fast path that could decline with Ok(None): the query fails on the Parquet layout while the general path (and the in-memory layout) answers it", f"{file}:{line}", dict())
     R.ok("C04.R3", "fast-path-refusals-examined", dict(found=len(seen)))
+    # the zone-map proof that lets the Parquet fast path drop its row filter (layout-dependent answers when it is wrong)
+    import c05
+    c05.effective_operator(F, R, "C04.R4")
